@@ -18,15 +18,15 @@ CHECKS = {
          "Modulo SHA-256 collisions. Strings obey the parser's invariants (non-empty, no newline/tab, not a lone ':').",
          "property-based testing: metamorphic near-miss pairs vs set/list equality oracle", "2 C13"),
  "C14": ("exploration",
-         "Rendered random rule sets under all formatting choices must parse to exactly the written rules (sets equal, commands exact, no duplicates, line-order invariant); single-edit corruptions and token soup must give exactly the result of an independent reference parser (error kind, file, 1-based line, bundle indices) and never panic.",
+         "Rendered random rule sets under all formatting choices must parse to exactly the written rules (sets equal, commands exact, no duplicates, line-order invariant); single-edit corruptions and token soup must give exactly the result of an independent reference parser (error kind, file, 1-based line, bundle indices) and never panic. The thorough tier adds a coverage-guided libFuzzer target with the same oracle inside (2M runs, seeded with the project's own test strings); it found the flat-plus-bundled duplicate (fixed in f7c720b).",
          "Trusted: oracle/refparse.rs (written from the README and the conventions the project's tests document). Shapes the format leaves open (CR, empty section, tab-only lines) are checked for totality only.",
          "property-based testing: round-trip + differential against a reference parser; grammar-based corruption", "2 C14"),
  "C15": ("exploration",
-         "Files of every length 0..=1100 plus random lengths to 70000 read through short-read handles are hashed and compared with the harness's own SHA-256/base-62; all edge and random 256-bit values round-trip through the text form; arbitrary strings are accepted iff the independent decoder accepts them; directory hashes are order-independent and change under any single point change.",
+         "Files of every length 0..=1100 plus random lengths to 70000 read through short-read handles are hashed and compared with the harness's own SHA-256/base-62; all edge and random 256-bit values round-trip through the text form; arbitrary strings are accepted iff the independent decoder accepts them; directory hashes are order-independent and change under any single point change (content, name, entry added/removed, bytes moved between adjacent files). Thorough: libFuzzer target for the text form (4M runs) and `hash` through the built binary on real files.",
          "Trusted: harness sha256.rs and b62.rs (self-tested against sha256sum). Modulo collisions.",
          "property-based testing: differential against independent SHA-256/base-62, round-trip, metamorphic tree changes", "2 C15"),
  "C16": ("exploration",
-         "Random rule histories and file-state tables written through the real writers are read back by a fresh object and compared; every strict prefix must be rejected; every single bit flip of small instances and random byte strings must yield an error or a well-formed value, never a panic.",
+         "Random rule histories and file-state tables written through the real writers are read back by a fresh object and compared; every strict prefix must be rejected; every single bit flip of small instances and random byte strings must yield an error or a well-formed value, never a panic. Thorough: libFuzzer target feeding arbitrary bytes to both readers (accepted values must round-trip and none of their strict prefixes may be accepted).",
          "Equality on decoded values. Allocation bounds are not measured (see DESIGN changelog).",
          "property-based testing: round-trip, prefix and bit-flip fault injection on serialised state", "2 C16"),
  "C02": ("exploration",
@@ -50,7 +50,7 @@ CHECKS = {
          "Banner text compared after trimming; colours ignored. Scheduled scenarios are added by the C03-C06 engine.",
          "property-based testing: printed output vs call-log oracle over generated histories", "2 C20"),
  "C03": ("exploration",
-         "Each generated scenario (graph x initial state x final build) is run from the same forked state under two serial schedules, every single-preemption schedule of the deterministic scheduler (sampled when over budget) and generated preemption-bounded / random-walk / PCT schedules; at every command start each declared source must hold its reference content and must not be modified afterwards.",
+         "Each generated scenario (graph x initial state x final build) is run from the same forked state under two serial schedules, every single-preemption schedule of the deterministic scheduler (sampled when over budget) and generated preemption-bounded / random-walk / PCT schedules; at every command start each declared source must hold its reference content and must not be modified afterwards. Conflict points (yields on a cache entry that two threads touch) are additionally preempted singly and in pairs, the second point taken from the yield log of the run with the first.",
          "Interleavings are explored at yield points only (channel ops, spawn/join/exit, every System call); commands are atomic. Exhaustive only for single preemptions of small scenarios.",
          "property-based testing over schedules: controlled deterministic scheduler, single-preemption enumeration + generated schedules, oracle at command entry", "2 C03"),
  "C04": ("exploration",
@@ -58,11 +58,11 @@ CHECKS = {
          "A failing command writes nothing; error order is not compared; CommandExecutedButErrored carries no name, so it is matched by count.",
          "property-based testing: fault placement x schedules against the reference evaluation, then repair-and-rebuild", "2 C04"),
  "C05": ("exploration",
-         "Every run of every scheduled scenario (build and clean, with failures, cancellations and goal-restricted graphs) must come back: the scheduler shim knows every thread's blocked-on relation, so 'all unfinished threads blocked' is reported as a deadlock structurally; panics in any thread and SenderError/ReceiverError/Weird results are violations.",
+         "Every run of every scheduled scenario (build and clean, with failures, cancellations and goal-restricted graphs) must come back: the scheduler shim knows every thread's blocked-on relation, so 'all unfinished threads blocked' is reported as a deadlock structurally; panics in any thread and SenderError/ReceiverError/Weird results are violations. Arbitrary generated rule sets (cycles, duplicate targets, missing goals) are also built and cleaned: whatever dependency analysis answers, the call must return.",
          "Deadlock is decided from the complete blocked-on relation of the shim, never by a timeout. Liveness beyond the explored schedules is not established.",
          "property-based testing over schedules: deterministic scheduler with structural deadlock detection, single-preemption enumeration + random/PCT", "2 C05"),
  "C06": ("exploration",
-         "Scenarios biased toward shared cache entries (byte-identical outputs of unrelated rules, cleaned and reverted states) are run under many schedules from one forked state; verdict and the bytes/existence of every workspace file must equal the serial run, and the cache must stay content-addressed with nothing lost on every run.",
+         "Scenarios biased toward shared cache entries (byte-identical outputs of unrelated rules, cleaned and reverted states) are run under many schedules from one forked state; verdict and the bytes/existence of every workspace file must equal the serial run, and the cache must stay content-addressed with nothing lost on every run. Schedules: two serial, every single preemption (budgeted), generated random/PCT/bounded schedules, and directed single and paired preemptions at cache-entry conflict points.",
          "Only the observables the property names are compared (not permissions, mtimes, which rule won a restore, or execution counts).",
          "property-based testing: differential across schedules of the same scenario (serial baseline vs enumerated/generated schedules)", "2 C06"),
  "C11": ("fault_enumeration",
@@ -118,15 +118,18 @@ def main():
             "enable": "RUSTFLAGS='--cfg ruler_verif' (set in /verif/harness/.cargo/config.toml); the harness crate include!s /repo/src/main.rs",
             "baseline_off_cmd": "cd /repo && cargo nextest run --workspace --no-fail-fast --offline || (cd /repo && cargo test --workspace --no-fail-fast --offline)",
             "source_commits": ["a3dff7b"],
+            "fix_commits": ["3346842", "4f4789b", "a7fb2ad", "4bd0967", "139ab1b", "f7c720b"],
             "add_only": True,
         },
         "engines": [
+            {"name": "libfuzzer", "path": "fuzz/", "serves_properties": ["C14", "C15", "C16"],
+             "kind_free_text": "cargo-fuzz targets parse / decode62 / state (nightly, offline), oracles shared with the harness; thorough tiers only"},
             {"name": "rv", "path": "harness/", "serves_properties": [c["property_id"] for c in checks],
              "kind_free_text": "Rust binary that include!s /repo/src/main.rs; proptest strategies, deterministic scheduler shim, instrumented in-memory System, reference model"},
         ],
         "checks": checks,
         "not_applicable": na,
-        "notes": "All checks are generated-input search against explicit oracles (property-based testing / fuzzing). Known findings: known_findings.json.",
+        "notes": "All checks are generated-input search against explicit oracles (property-based testing / fuzzing; libFuzzer for the three byte-level decoders in the thorough tiers). Six fix: commits in /repo (F1-F4, F4 follow-up, F6); one open known finding (C10 exec bit among byte-identical targets) in known_findings.json. Seeded changes and the detection matrix: seeded/.",
     }
     json.dump(m, open(os.path.join(HERE, "MANIFEST.json"), "w"), indent=1)
     print("checks:", [c["property_id"] for c in checks], "not_applicable:", len(na))
